@@ -110,6 +110,8 @@ pub struct Hist {
     pub advances: u64,
     pub discarded_total: u64,
     pub wcfg: WorldCfg,
+    pub fee: Option<crate::fees::FeeTracker>,
+    pub upgrades: u64,
 }
 
 fn short(h: &H) -> String {
@@ -168,6 +170,8 @@ impl Hist {
             advances: 0,
             discarded_total: 0,
             wcfg,
+            fee: None,
+            upgrades: 0,
         }
     }
 
@@ -425,7 +429,31 @@ impl Hist {
         if self.model.tx_invalid.is_some() {
             self.desync = Some(format!("generator produced a tx-invalid block: {:?}", self.model.tx_invalid));
         }
+        self.fee_boundary();
         Some(hash)
+    }
+
+    pub fn fee_boundary(&mut self) {
+        if let Some(mut f) = self.fee.take() {
+            f.boundary(&mut self.model);
+            self.fee = Some(f);
+        }
+    }
+
+    /// pre_upgrade + post_upgrade between two messages
+    pub fn upgrade(&mut self, ctx: &mut Ctx) -> bool {
+        match world::upgrade(None) {
+            Out::Trap(m) => {
+                self.desync = Some(format!("upgrade trapped: {}", m));
+                ctx.violation(format!("pre_upgrade/post_upgrade trapped: {}", m), None, json!({"log": self.log}));
+                false
+            }
+            Out::Ok(()) => {
+                self.upgrades += 1;
+                self.log.push("upgrade".into());
+                true
+            }
+        }
     }
 
     /// One ingestion opportunity: runs the canister's ingestion (to completion) and compares the
@@ -493,6 +521,10 @@ impl Hist {
             match dec {
                 Decision::Must(x) => {
                     ctx.cov.count("c03_rule_must_advance");
+                    if self.model.anchor == can_anchor && world::is_ingesting() {
+                        // the advance is in progress (ingestion paused between rounds)
+                        break;
+                    }
                     if self.model.anchor == can_anchor {
                         // withheld
                         if self.report_c03 {
@@ -544,6 +576,9 @@ impl Hist {
                 }
                 Decision::May(opts) => {
                     ctx.cov.count("c03_ambiguous_steps");
+                    if self.model.anchor == can_anchor && world::is_ingesting() {
+                        break;
+                    }
                     match next_towards {
                         Some(n) if opts.contains(&Some(n)) => {
                             self.note_advance(ctx, n, best_before, true);
@@ -595,6 +630,7 @@ impl Hist {
             self.desync = Some("live set mismatch".into());
             return false;
         }
+        self.fee_boundary();
         if self.report_c03 {
             let fpv = crate::rng::fp_str(&format!(
                 "{:?}|{}|{}|{}",
